@@ -260,6 +260,22 @@ func (g *argGen) value(t reflect.Type, hint string, pool []modeling.Mesh) (refle
 		return m, true
 	case t.Kind() == reflect.Func:
 		return g.function(t), true
+	case t.PkgPath() != "" && (t.Kind() == reflect.Int || t.Kind() == reflect.Int64 || t.Kind() == reflect.Uint8):
+		// named enumerations (VertexColorSpaceTransformation, plane sides ...)
+		return reflect.ValueOf(g.c.Intn("arg:enum", 4)).Convert(t), true
+	case t.Kind() == reflect.Pointer && t.Elem().Kind() == reflect.Struct && t.Elem().PkgPath() != "":
+		// pointer to a parameter struct: fill its exported fields
+		v := reflect.New(t.Elem())
+		for i := 0; i < t.Elem().NumField(); i++ {
+			f := t.Elem().Field(i)
+			if !f.IsExported() {
+				continue
+			}
+			if fv, ok := g.value(f.Type, t.Elem().Name()+"."+f.Name, pool); ok {
+				v.Elem().Field(i).Set(fv)
+			}
+		}
+		return v, true
 	}
 	g.unsupported[t.String()] = true
 	return reflect.Value{}, false
@@ -524,7 +540,18 @@ func baseMesh(c choice.Chooser) (modeling.Mesh, string) {
 	case 1:
 		return primitives.UVSphere(1, 2+c.Intn("base:rows", 2), 3), "UVSphere"
 	case 2:
-		return primitives.Quad{Width: 1, Depth: 2, UVs: primitives.DefaultCubeUVs().Top}.ToMesh(), "Quad"
+		switch c.Intn("base:prim", 5) {
+		case 0:
+			return primitives.Quad{Width: 1, Depth: 2, UVs: primitives.DefaultCubeUVs().Top}.ToMesh(), "Quad"
+		case 1:
+			return primitives.Cylinder{Sides: 3 + c.Intn("base:sides", 3), Height: 1, Radius: 0.5}.ToMesh(), "Cylinder"
+		case 2:
+			return primitives.Cone{Sides: 3 + c.Intn("base:sides", 3), Height: 1, Radius: 0.5}.ToMesh(), "Cone"
+		case 3:
+			return primitives.Circle{Sides: 3 + c.Intn("base:sides", 4), Radius: 1}.ToMesh(), "Circle"
+		default:
+			return primitives.Cube{Height: 1, Width: 2, Depth: 3, UVs: primitives.DefaultCubeUVs()}.UnweldedQuads(), "Cube.UnweldedQuads"
+		}
 	case 3:
 		s := gen.MeshSpec{Topo: modeling.PointTopology, MaxVerts: 8, V1: []string{"f1", modeling.OpacityAttribute},
 			V3: []string{modeling.PositionAttribute, modeling.ScaleAttribute, modeling.FDCAttribute}, V4: []string{modeling.RotationAttribute, "f4"}}
